@@ -163,7 +163,7 @@ func findStageWorker(p *core.Program, pkgpath string) *stageWorker {
 				if w.Ok != nil {
 					for _, r := range ir.Referrers(w.Ok) {
 						if ifi, ok := r.(*ssa.If); ok {
-							w.Start = ir.Pt{B: ifi.Block().Succs[0], I: 0}
+							w.Start = ir.EdgePt(ifi.Block(), 0)
 						}
 					}
 				}
